@@ -425,6 +425,7 @@ Definition affine (a b : Z) (rows : list Z) : list Z := map (fun x => a * x + b)
 
 Inductive C15_case :=
 | CPadded (bs nb a b : Z) (ds : list (Z * Z * nat))
+| CPadGrid (bs nb : Z) (split : nat)
 | CShuffle (B : Z) (code : list nat) (draws : list Z) (n : nat)
 | CShuffleL (B : Z) (code : list nat) (draws : list Z) (src : list Z)     (* any source, duplicates included *)
 | CShufBatch (bs B a b : Z) (code : list nat) (draws : list Z) (ds : list (Z * Z * nat))
@@ -435,11 +436,37 @@ Inductive C15_case :=
 
 Inductive C15_obs :=
 | OPadded (err : bool) (batches : list (list Z * list bool))
+| OPadGrid (counts : list (nat * nat))
 | OShuffle (out : list Z)
 | OShufBatch (err : bool) (batches : list (list Z))
 | ORepeat (trace : list (option Z))
 | OShufClients (stream : list Z)
 | OSrb (batches : list (list Z)).
+
+(* exhaustive grid: for N = 0, 1, 2, ... rows in all (split over one, two or three clients by `split`):
+   (number of batches, number of rows of the last batch) *)
+Definition grid_sizes (split N : nat) : list (Z * Z * nat) :=
+  match split with
+  | O => [(0, 0, N)]
+  | S O => [(0, 0, (N / 3)%nat); (0, 0, (N - N / 3)%nat)]
+  | _ => [(0, 0, (N / 2)%nat); (0, 0, 0%nat); (0, 0, (N - N / 2)%nat)]
+  end.
+
+Definition grid_point (bs nb : Z) (split N : nat) : option (nat * nat) :=
+  match padded_batch_client_datasets 0 (fun x => x) bs nb (mk_datasets 0 (grid_sizes split N)) with
+  | PDone out => Some (length out, length (b_rows (last out (mk_batch [] []))))
+  | _ => None
+  end.
+
+Fixpoint grid_agree (bs nb : Z) (split N : nat) (obs : list (nat * nat)) : bool :=
+  match obs with
+  | [] => true
+  | (k, r) :: obs' =>
+    match grid_point bs nb split N with
+    | Some (k', r') => Nat.eqb k k' && Nat.eqb r r' && grid_agree bs nb split (S N) obs'
+    | None => false
+    end
+  end.
 
 Definition optz_eqb (x y : option Z) : bool :=
   match x, y with Some a, Some b => a =? b | None, None => true | _, _ => false end.
@@ -452,6 +479,7 @@ Definition C15_agree (c : C15_case) (o : C15_obs) : bool :=
     | PValueError out => err && list_beq pb_eqb (map (fun x => (b_rows x, b_mask x)) out) batches
     | PStuck => false
     end
+  | CPadGrid bs nb split, OPadGrid counts => grid_agree bs nb split 0 counts
   | CShuffle B code draws n, OShuffle out =>
     match buffered_shuffle B code draws (idx n) false with
     | SOk l => lz_eqb l out
